@@ -3,6 +3,7 @@
 //! histories (exhaustive enumeration with re-execution: the iterators are not Clone).
 use mc::bvobs::*;
 use mc::gens::*;
+use mc::iterops::*;
 use mc::refm::RefBits;
 use mc::run::*;
 use mc::trees::*;
@@ -449,6 +450,9 @@ fn observe_qv(ctx: &mut Ctx, b: &QVectorBuilder, vals: &[u8]) {
         ctx.obs("get", cl, 0, i as u64, 0, Exp::Is(vals.get(i).copied()), || q.get(i));
     }
     ctx.obs("get", cl, 0, u64::MAX, 0, Exp::Is(None), || q.get(usize::MAX));
+    for i in mc::sweep::wrap_args(vals.len()) {
+        ctx.obs("get", cl, 0, i as u64, 0, Exp::Is(None), || q.get(i));
+    }
     ctx.obs_seq("iter", cl, 0, vals, || q.iter().collect::<Vec<u8>>());
     ctx.obs_seq("(&q).into_iter", cl, 0, vals, || (&q).into_iter().collect::<Vec<u8>>());
     ctx.obs_seq("into_iter", cl, 0, vals, || q.clone().into_iter().collect::<Vec<u8>>());
@@ -723,6 +727,31 @@ fn run_iter_tree<X: Tree>(ctx: &mut Ctx, gen: &Gen, vm: &str, extra: usize) {
             drive_nth(ctx, "iter().rev()", &rev, a, 3, &mut it);
         }
     }
+    // overridable operations (nth, fold, try_fold, count, last, nth_back, rfold, try_rfold, len ...) after every prefix
+    {
+        let n = vals.len();
+        let names = ["iter()", "(&tree).into_iter()", "into_iter()"];
+        let small = n <= 8;
+        let ops: Vec<IterOp> = if small { FWD_OPS_SMALL.iter().chain(DE_OPS_SMALL.iter()).copied().collect() } else { fwd_ops_long().into_iter().chain(de_ops_long()).collect() };
+        let al = prefix_list(n);
+        if small || n >= 100 {
+            for which in 0..3u8 {
+                if !small && which == 1 {
+                    continue;
+                }
+                for &a in &al {
+                    for b in if small { vec![0usize, 1, 2] } else { vec![0usize, 1, 3] } {
+                        let f = a.min(n);
+                        let bb = b.min(n - f);
+                        let rest = &vals[f..n - bb];
+                        for &op in &ops {
+                            check(ctx, names[which as usize], a, b, op, rest, true, || t.iter_op(which, a, b, rest, op));
+                        }
+                    }
+                }
+            }
+        }
+    }
     // whole-sequence adaptors built on the same calls
     ctx.obs_seq("iter().collect", "", 0, &vals, || t.iter_().collect::<Vec<_>>());
     let rev: Vec<X::T> = vals.iter().rev().copied().collect();
@@ -781,6 +810,44 @@ fn drive_nth<T: Copy + PartialEq + std::fmt::Debug + Hash>(ctx: &mut Ctx, method
     ctx.add("histories", 1);
 }
 
+/// Overridable iterator operations (iterops) after every prefix length in `a_list`, on the concrete iterator type.
+fn explore_fwd<T: Copy + Ord + std::fmt::Debug, I: Iterator<Item = T>>(
+    ctx: &mut Ctx,
+    method: &'static str,
+    vals: &[T],
+    a_list: &[usize],
+    ops: &[IterOp],
+    len_of: Option<fn(&I) -> usize>,
+    mk: impl Fn() -> I,
+) {
+    let n = vals.len();
+    for &a in a_list {
+        if a > n + 1 {
+            continue;
+        }
+        let rest = &vals[a.min(n)..];
+        for &op in ops {
+            check(ctx, method, a, 0, op, rest, len_of.is_some(), || {
+                let mut it = mk();
+                advance(&mut it, a);
+                apply_fwd(it, rest, op, len_of)
+            });
+        }
+    }
+    ctx.add("histories", (a_list.len() * ops.len()) as u64);
+}
+
+fn prefix_list(n: usize) -> Vec<usize> {
+    if n <= 9 {
+        (0..=n + 1).collect()
+    } else {
+        let mut v: Vec<usize> = NTH_A.iter().copied().chain([3, 200, 511, 512, 513, n.saturating_sub(1), n, n + 1]).filter(|&a| a <= n + 1).collect();
+        v.sort_unstable();
+        v.dedup();
+        v
+    }
+}
+
 const NTH_A: [usize; 11] = [0, 1, 63, 64, 65, 127, 128, 129, 255, 256, 257];
 const NTH_B: [usize; 8] = [0, 1, 3, 63, 64, 127, 128, 200];
 
@@ -834,9 +901,30 @@ fn run_iter_bits(ctx: &mut Ctx, gen: &BitGen, extra: usize) {
             }
         }
     }
+    {
+        let al = prefix_list(bits.len());
+        let ops: Vec<IterOp> = if bits.len() <= 9 { FWD_OPS_SMALL.to_vec() } else { fwd_ops_long() };
+        ctx.set_ty("BitVectorIter");
+        explore_fwd(ctx, "BitVector::iter", &bits, &al, &ops, Some(|i: &qwt::bitvector::BitVectorIter| i.len()), || bv.iter());
+        explore_fwd(ctx, "BitVectorMut::iter", &bits, &al, &ops, Some(|i: &qwt::bitvector::BitVectorIter| i.len()), || bvm.iter());
+        explore_fwd(ctx, "(&BitVector)::into_iter", &bits, &al, &ops, Some(|i: &qwt::bitvector::BitVectorIter| i.len()), || (&bv).into_iter());
+        ctx.set_ty("BitVectorIntoIter");
+        explore_fwd(ctx, "BitVector::into_iter", &bits, &al, &ops, Some(|i: &qwt::bitvector::BitVectorIntoIter| i.len()), || bv.clone().into_iter());
+        explore_fwd(ctx, "BitVectorMut::into_iter", &bits, &al, &ops, Some(|i: &qwt::bitvector::BitVectorIntoIter| i.len()), || bvm.clone().into_iter());
+        ctx.set_ty("BitVectorBitPositionsIter");
+        explore_fwd(ctx, "BitVector::ones", &r.ones, &prefix_list(r.ones.len()), &ops, None, || bv.ones());
+        explore_fwd(ctx, "BitVector::zeros", &r.zeros, &prefix_list(r.zeros.len()), &ops, None, || bv.zeros());
+        explore_fwd(ctx, "BitVectorMut::ones", &r.ones, &prefix_list(r.ones.len()), &ops, None, || bvm.ones());
+        explore_fwd(ctx, "BitVectorMut::zeros", &r.zeros, &prefix_list(r.zeros.len()), &ops, None, || bvm.zeros());
+    }
     ctx.set_ty("DArray iterators");
     {
         let da: DArray<true> = bits.iter().copied().collect();
+        let al = prefix_list(bits.len());
+        let ops: Vec<IterOp> = if bits.len() <= 9 { FWD_OPS_SMALL.to_vec() } else { fwd_ops_long() };
+        explore_fwd(ctx, "DArray::iter", &bits, &al, &ops, Some(|i: &qwt::bitvector::BitVectorIter| i.len()), || da.iter());
+        explore_fwd(ctx, "DArray::ones", &r.ones, &prefix_list(r.ones.len()), &ops, None, || da.ones());
+        explore_fwd(ctx, "DArray::zeros", &r.zeros, &prefix_list(r.zeros.len()), &ops, None, || da.zeros());
         let it = RefCell::new(da.iter());
         drive_fwd(ctx, "DArray::iter", &bits, extra, || it.borrow_mut().next(), || Some(it.borrow().len()));
         let it = RefCell::new(da.ones());
@@ -870,6 +958,16 @@ fn run_iter_quads(ctx: &mut Ctx, gen: &Gen, extra: usize) {
     }
     let r256: RSQVector256 = q.iter().copied().collect();
     let r512: RSQVector512 = q.iter().copied().collect();
+    {
+        let al = prefix_list(q.len());
+        let ops: Vec<IterOp> = if q.len() <= 9 { FWD_OPS_SMALL.to_vec() } else { fwd_ops_long() };
+        explore_fwd(ctx, "QVector::iter", &q, &al, &ops, None, || qv.iter());
+        explore_fwd(ctx, "(&QVector)::into_iter", &q, &al, &ops, None, || (&qv).into_iter());
+        explore_fwd(ctx, "QVector::into_iter", &q, &al, &ops, None, || qv.clone().into_iter());
+        explore_fwd(ctx, "RSQVector256::iter", &q, &al, &ops, None, || r256.iter());
+        explore_fwd(ctx, "(&RSQVector512)::into_iter", &q, &al, &ops, None, || (&r512).into_iter());
+        explore_fwd(ctx, "RSQVector512::into_iter", &q, &al, &ops, None, || r512.clone().into_iter());
+    }
     {
         let it = RefCell::new(r256.iter());
         drive_fwd(ctx, "RSQVector256::iter", &q, extra, || it.borrow_mut().next(), || None);
@@ -981,6 +1079,14 @@ fn enumerate(args: &Args) -> Vec<HCase> {
                     }
                 }
             }
+            // iteration (borrowing and consuming) incl. the overridable iterator operations after every prefix
+            for g in tiny_all(4, if th { 5 } else { 4 }) {
+                v.push(HCase::IterQuads { gen: g, extra: 4 });
+            }
+            for n in [127usize, 128, 129, 255, 256, 257, 511, 512, 513, 700, 1025] {
+                v.push(HCase::IterQuads { gen: Gen::Boundary { n, pat: Pat::Periodic, sigma: 4 }, extra: 4 });
+                v.push(HCase::IterQuads { gen: Gen::Boundary { n, pat: Pat::Runs(37), sigma: 4 }, extra: 4 });
+            }
             for n in [127usize, 128, 129, 255, 256, 257, 513, 1025] {
                 for ty in 0..12u8 {
                     v.push(HCase::QvCollect { gen: Gen::Boundary { n, pat: Pat::Periodic, sigma: 4 }, ty, offset: if ty < 6 { -5 } else { 9 } });
@@ -1003,20 +1109,23 @@ fn enumerate(args: &Args) -> Vec<HCase> {
                 for n in [130usize, 300] {
                     v.push(HCase::IterTree { alias: al.to_string(), elem: ELEMS[j % 4].into(), gen: Gen::Boundary { n, pat: Pat::Periodic, sigma: 7 }, vmap: if huff { "hid".into() } else { "id".into() }, extra: 0 });
                 }
+                v.push(HCase::IterTree { alias: al.to_string(), elem: ELEMS[(j + 1) % 4].into(), gen: Gen::Boundary { n: 600, pat: Pat::Runs(37), sigma: 5 }, vmap: if huff { "hid".into() } else { "id".into() }, extra: 0 });
             }
             for g in tinybits_all(if th { 9 } else { 7 }) {
                 v.push(HCase::IterBits { gen: g, extra: 4 });
             }
             for n in [63usize, 64, 65, 511, 512, 513, 1025] {
-                for pat in [BitPat::Alt, BitPat::Ones, BitPat::Zeros, BitPat::Runs(64)] {
+                // Runs(37) / OnePer(7): no period that divides a word or a line, so a wrapped position shows
+                for pat in [BitPat::Alt, BitPat::Ones, BitPat::Zeros, BitPat::Runs(64), BitPat::Runs(37), BitPat::OnePer(7)] {
                     v.push(HCase::IterBits { gen: BitGen::Pat { n, pat }, extra: 4 });
                 }
             }
             for g in tiny_all(4, if th { 5 } else { 4 }) {
                 v.push(HCase::IterQuads { gen: g, extra: 4 });
             }
-            for n in [127usize, 128, 129, 255, 256, 257, 513] {
+            for n in [127usize, 128, 129, 255, 256, 257, 513, 700] {
                 v.push(HCase::IterQuads { gen: Gen::Boundary { n, pat: Pat::Periodic, sigma: 4 }, extra: 4 });
+                v.push(HCase::IterQuads { gen: Gen::Boundary { n, pat: Pat::Runs(37), sigma: 4 }, extra: 4 });
             }
         }
         p => panic!("mc_hist does not serve {p}"),
